@@ -225,6 +225,7 @@ Lemma np_scan_dense c p dc m q : post tt1 (scan_dense c p dc m q).
 Proof.
   unfold scan_dense.
   apply post_bind with (P := Id); [apply np_dense_loop; repeat split; intros; discriminate|intros s Hs].
+  destruct (dense_empty (snd s)); [exact I|].
   apply post_bind with (P := Ic); [apply np_dense_fixup; exact Hs|intros dc1 (H1 & H2 & H3)].
   unfold extract_dense. destruct (c_ids dc1) as [ids|]; [|exfalso; apply H1; reflexivity].
   apply post_bind with (P := tt1); [apply np_extract_loop; split; assumption|intros ? _; exact I].
